@@ -219,6 +219,15 @@ func specConstraints(f *Flow, t *Txn) verdict {
 				n++
 			}
 		}
+		// a query string given as written: a malformed pair (bad escape, lone "%",
+		// raw ";") is not a parameter and does not take the well-formed pairs next
+		// to it away: the requirement is judged on the well-formed pairs.  Only when
+		// a malformed pair could itself be read as a pair for THIS key, or the pair
+		// for this key is written with escapes, the text does not decide.
+		if t.Raw && (malformedTouches(t.RawQ, q.K) || escapedPairFor(t.RawQ, q.K)) {
+			v = vAnd(v, May)
+			continue
+		}
 		switch {
 		case !any:
 			return MustNot
